@@ -17,55 +17,174 @@ def _thr(cfg, nodes, use, n, r, lowmap, m, sign):
     return p_ * k // q_
 
 
-def _over(cfg, rnd):
-    """node -> (kind of overload 'node' / 'prod' / 'none', usage above high, prod usage above prod high) for the measured nodes"""
-    nodes, pods = rnd.get("nodes", {}), rnd.get("pods", {}) or {}
+def _legacy(cfg):
+    """segments recorded before the check drove several pools: one pool without selector"""
+    if "pools" in cfg:
+        return cfg
+    pool = {k: cfg.get(k) for k in ("dev", "low", "high", "plow", "phigh", "anomaly", "norm")}
+    pool["sel"] = {"nil": True, "labels": []}
+    return {"numNodes": cfg.get("numNodes", 0), "nodeFit": cfg.get("nodeFit", False), "pools": [pool]}
+
+
+def _matches(pool, node):
+    return pool["sel"]["nil"] or all(l in (node.get("labels") or []) for l in pool["sel"]["labels"])
+
+
+def _table(pool, rnd):
+    """usage / threshold table of one pool (PoolTable in Rebalance.tla), for the measured nodes the pool selects"""
+    nodes = {n: v for n, v in rnd.get("nodes", {}).items() if _matches(pool, v)}
+    pods = rnd.get("pods", {}) or {}
     fresh = [n for n in nodes if nodes[n]["fresh"]]
     use = {n: {r: nodes[n]["sys"][r] + sum(p["use"][r] for p in pods.values() if p["node"] == n and p["metric"]) for r in RES} for n in fresh}
     puse = {n: {r: sum(p["use"][r] for p in pods.values() if p["node"] == n and p["metric"] and p["prod"]) for r in RES} for n in fresh}
-    out = {}
+    T = {"use": use, "puse": puse, "low": {}, "high": {}, "plow": {}, "phigh": {}, "sched": {}}
     for n in fresh:
-        low = {r: _thr(cfg, nodes, use, n, r, cfg["low"], cfg["low"], -1) for r in RES}
-        high = {r: _thr(cfg, nodes, use, n, r, cfg["low"], cfg["high"], 1) for r in RES}
-        phigh = {r: _thr(cfg, nodes, puse, n, r, cfg["plow"], cfg["phigh"], 1) for r in RES}
-        over = any(use[n][r] > high[r] for r in RES)
-        under = (not nodes[n]["unsched"]) and all(use[n][r] <= low[r] for r in RES)
-        pover = any(puse[n][r] > phigh[r] for r in RES)
-        out[n] = ("node" if over and not under else "prod" if pover else "none", over, pover)
-    return out
+        T["low"][n] = {r: _thr(pool, nodes, use, n, r, pool["low"], pool["low"], -1) for r in RES}
+        T["high"][n] = {r: _thr(pool, nodes, use, n, r, pool["low"], pool["high"], 1) for r in RES}
+        T["plow"][n] = {r: _thr(pool, nodes, puse, n, r, pool["plow"], pool["plow"], -1) for r in RES}
+        T["phigh"][n] = {r: _thr(pool, nodes, puse, n, r, pool["plow"], pool["phigh"], 1) for r in RES}
+        T["sched"][n] = not nodes[n]["unsched"]
+    return T
+
+
+def _overv(u, h):
+    return any(u[r] > h[r] for r in RES)
+
+
+def _underv(u, l):
+    return all(u[r] <= l[r] for r in RES)
+
+
+def _over_(T, n): return _overv(T["use"][n], T["high"][n])
+def _pover(T, n): return _overv(T["puse"][n], T["phigh"][n])
+def _under(T, n): return T["sched"][n] and _underv(T["use"][n], T["low"][n])
+def _punder(T, n): return T["sched"][n] and _underv(T["puse"][n], T["plow"][n])
+
+
+def _kind(T, n):
+    return "node" if _over_(T, n) and not _under(T, n) else "prod" if _pover(T, n) else "none"
+
+
+def _underused(T, k, m):
+    if k == "node":
+        return _under(T, m) and not _pover(T, m)
+    return _punder(T, m) and not _pover(T, m) and (_under(T, m) or not _over_(T, m))
+
+
+def _clauses(pool, numNodes, T, rnd, sN, sP, calls, k, p):
+    """the clauses of AllowedP for Evict(p) under pool k (labels only: mirrors WhyP of Rebalance.tla)"""
+    pods = rnd.get("pods", {}) or {}
+    if p not in pods:
+        return {"unknownPod": p}
+    n = pods[p]["node"]
+    if n not in T["use"]:
+        return {"node": n, "measured": False}
+    dec = lambda q: {r: (pods[q]["use"][r] if pods[q]["metric"] else 0) for r in RES}
+    ok = [c for c in calls if c["ok"]]
+    frm = [c for c in ok if pods[c["pod"]]["node"] == n]
+    kd = _kind(T, n)
+    est = {r: T["use"][n][r] - sum(dec(c["pod"])[r] for c in frm) for r in RES}
+    pest = {r: T["puse"][n][r] - sum(dec(c["pod"])[r] for c in frm if pods[c["pod"]]["prod"]) for r in RES}
+    src = kd != "none" and (kd != "prod" or pods[p]["prod"]) and \
+        (_overv(est, T["high"][n]) if kd == "node" else _overv(pest, T["phigh"][n]))
+    streak = (sP if kd == "prod" else sN).get(n, 0)
+    an = pool["anomaly"] < 2 or streak >= pool["anomaly"]
+    kk = "node" if kd == "none" else kd
+    low = any(_underused(T, kd, m) for m in T["use"] if m != n)
+    D = [m for m in T["use"] if _underused(T, kk, m)]
+    mine = [c for c in ok if c["pool"] == k and pods[c["pod"]]["node"] in T["use"] and _kind(T, pods[c["pod"]]["node"]) == kk]
+    hd = {r: sum((T["high"][m][r] - T["use"][m][r]) if kk == "node" else (T["phigh"][m][r] - T["puse"][m][r]) for m in D)
+          - sum(dec(c["pod"])[r] for c in mine) for r in RES}
+    wl = pods[p].get("wl", "")
+    fil = pods[p]["pass"] and all(c["pod"] != p for c in ok) and (wl == "" or all(pods[c["pod"]].get("wl", "") != wl for c in ok))
+    und = [m for m in T["use"] if _underused(T, "node", m) or _underused(T, "prod", m)]
+    z = not (all(_kind(T, m) == "none" for m in T["use"]) or not und or len(und) == len(T["use"]) or len(und) <= numNodes)
+    return {"node": n, "kind": kd, "measured": True, "src": src, "an": an, "streak": streak, "required": pool["anomaly"],
+            "low": low, "hd": all(hd[r] > 0 for r in RES), "fil": fil, "z": z}
+
+
+_CL = ("src", "an", "low", "hd", "fil", "z")
+
+
+def _failed(w):
+    return [c for c in _CL if w.get(c) is False]
+
+
+def _mirror(fl):
+    """recompute what the trace spec saw for the rejected evict event: {cursor, pools: [{pool, past, selNil, again, why}]}"""
+    seg, i = fl["segment"], fl["fail_index"]
+    cfg = _legacy(seg[0]["cfg"])
+    pools, nn = cfg["pools"], cfg["numNodes"]
+    sN = [dict() for _ in pools]
+    sP = [dict() for _ in pools]
+    tabs, rnd, calls, cur = None, None, [], 1
+    for x in seg[1:i + 1]:
+        if x.get("op") == "round":
+            rnd, calls, cur = x, [], 1
+            tabs = [_table(pc, rnd) for pc in pools]
+            for k, T in enumerate(tabs):
+                for n in T["use"]:
+                    sN[k][n] = min(sN[k].get(n, 0) + 1, 9) if _over_(T, n) else 0
+                    sP[k][n] = min(sP[k].get(n, 0) + 1, 9) if _pover(T, n) else 0
+        elif x.get("op") == "evict":
+            ws = []
+            for k in range(1, len(pools) + 1):
+                w = _clauses(pools[k - 1], nn, tabs[k - 1], rnd, sN[k - 1], sP[k - 1], calls, k, x["pod"])
+                pods = rnd.get("pods", {}) or {}
+                again = ""      # as which kind of source an earlier pool of this round already relieved the node
+                if x["pod"] in pods:
+                    n = pods[x["pod"]]["node"]
+                    js = sorted(c["pool"] for c in calls if c["ok"] and c["pool"] < k and pods[c["pod"]]["node"] == n)
+                    if js:
+                        again = _kind(tabs[js[0] - 1], n) if n in tabs[js[0] - 1]["use"] else "?"
+                ws.append({"pool": k, "past": k < cur, "selNil": pools[k - 1]["sel"]["nil"], "again": again, "why": w})
+            if x is seg[i]:
+                return {"cursor": cur, "pools": ws}
+            oks = [w["pool"] for w in ws if not w["past"] and w["why"].get("measured") and not _failed(w["why"])]
+            if oks:
+                cur = oks[0]
+            calls.append({"pod": x["pod"], "ok": x["ok"], "pool": cur})
+    return None
+
+
+def _label(exp, seg):
+    """signature of a rejected evict event from the per-pool diagnostics (TLC's in explain mode, else the mirror's)"""
+    ws = [w for w in exp["pools"] if not w["past"]]
+    cand = [w for w in ws if w["why"].get("measured")]
+    npools = len(exp["pools"])
+    if not cand:
+        if any("unknownPod" in w["why"] for w in ws):
+            return "unknown-pod"
+        return "failed=unmeasured-node" + ("" if npools == 1 else " pools=%d" % npools)
+    # the pool with the fewest failed clauses explains the call best; among equals, a pool for which the node was already
+    # relieved by an earlier pool of this round ("again": the multi-pool explanation), of those one without selector, then the first
+    best = min(cand, key=lambda w: (len(_failed(w["why"])), w["again"] in ("", False), not w["selNil"], w["pool"]))
+    w = best["why"]
+    failed = _failed(w)
+    kind = "failed=" + ",".join(failed) if failed else "other"
+    if failed == ["an"]:
+        kind += " streak=%s required=%s" % (w.get("streak"), w.get("required"))
+    if npools > 1:
+        nsel = sum(1 for x in exp["pools"] if x["why"].get("measured"))
+        # several pools: the overload kind, whether the explaining pool has a selector, whether several pools select the
+        # node (shared) and whether an earlier pool of this round already relieved it, as which kind of source (again=)
+        kind += " kind=%s sel=%s%s%s" % (w.get("kind"), "none" if best["selNil"] else "labels",
+                                         " shared" if nsel > 1 else "", " again=%s" % best["again"] if best["again"] else "")
+    return kind
 
 
 def sig(fl):
     """classify a rejected event (diagnostic label + known-finding key only; the verdict was TLC's)"""
     e = fl["event"]
+    if e.get("op") != "evict":
+        return "op=%s other" % e.get("op")
     exp = fl.get("expected")
-    kind = "other"
-    if e.get("op") == "evict" and isinstance(exp, dict):
-        failed = [k for k in ("src", "an", "low", "hd", "fil", "z") if exp.get(k) is False]
-        if exp.get("measured") is False:
-            failed = ["unmeasured-node"]
-        kind = "failed=" + ",".join(failed) if failed else "other"
-        if failed == ["an"]:
-            kind += " streak=%s required=%s" % (exp.get("streak"), exp.get("required"))
-    elif e.get("op") == "evict":
-        # only the first few rejections are explained by TLC: label the others by the overload history of the source node
-        try:
-            seg, i = fl["segment"], fl["fail_index"]
-            cfg = seg[0]["cfg"]
-            node, streak, k = e.get("from"), 0, "none"
-            rounds = [x for x in seg[:i] if x.get("op") == "round"]
-            k = _over(cfg, rounds[-1]).get(node, ("none",))[0]
-            for r in rounds:
-                o = _over(cfg, r).get(node)
-                if o is None:
-                    continue        # not measured in that round
-                streak = streak + 1 if (o[1] if k == "node" else o[2]) else 0
-            if cfg["anomaly"] >= 2 and k != "none" and streak < cfg["anomaly"]:
-                kind = "failed=an streak=%d required=%d" % (streak, cfg["anomaly"])
-            else:
-                kind = "unexplained kind=%s streak=%d anomaly=%d" % (k, streak, cfg["anomaly"])
-        except Exception as ex:     # a label must never break the run
-            kind = "unexplained (%s)" % type(ex).__name__
+    try:
+        if not (isinstance(exp, dict) and "pools" in exp):
+            exp = _mirror(fl)       # only the first few rejections are explained by TLC: recompute the same diagnostics
+        kind = _label(exp, fl["segment"]) if exp else "unexplained"
+    except Exception as ex:     # a label must never break the run
+        kind = "unexplained (%s)" % type(ex).__name__
     return "op=%s %s" % (e.get("op"), kind)
 
 
@@ -86,17 +205,37 @@ CONF = {
         {"module": "MC_Rebalance", "cfg": {"quick": None, "thorough": "MC_fit_thorough.cfg"}, "timeout": 1500},
         # 5 rounds, anomaly 2 / 3, ConsecutiveNormalities 2
         {"module": "MC_Rebalance", "cfg": {"quick": None, "thorough": "MC_rounds5_thorough.cfg"}, "timeout": 1500},
+        # SEVERAL pools: Balance over two pools (selector "a", then "b" / none / a stricter "b"; processed nodes and detectors as
+        # proposed_fixes/C18b keeps them), 3 nodes, 4 pods, anomaly none / 2 per pool, 3 rounds; thorough: anomaly 2/3 mixes, 4 rounds.
+        # (MC_pools_asfound.cfg / MC_pools_without_*.cfg are refuted by TLC: the tree as found, and the repair minus one part.)
+        {"module": "MC_RebalancePools", "cfg": {"quick": "MC_pools_quick.cfg", "thorough": "MC_pools_thorough.cfg"}, "timeout": 1500,
+         "coverage": True},
     ],
     "go": [{"pkg": "pkg/descheduler/framework/plugins/loadaware", "test": "TestVerifC18",
             "timeout": {"quick": 900, "thorough": 1800}}],
     "trace": {"module": "RebalanceTrace", "cfg": "Trace.cfg", "timeout": {"quick": 900, "thorough": 2400},
               "chunk_events": 60000},      # bounded memory per TLC run (the machine is shared)
     "signature": sig,
-    "rule": "one segment per plugin life: reset = thresholds / anomaly configuration, then 3..8 successive rounds of the real "
-            "LowNodeLoad.Balance, each logged as its inputs followed by the ordered Evict calls of the recording evictor; "
+    "rule": "one segment per plugin life: reset = one to three node pools (label selectors over the nodes, thresholds / anomaly "
+            "configuration per pool), then 3..8 successive rounds of the real LowNodeLoad.Balance (all pools in one call), each "
+            "logged as its inputs followed by the ordered Evict calls of the recording evictor; "
             "distinct by content hash, non-trivial = at least one checked event after the reset",
     "assumptions": [
-        "one node pool without selector; resources cpu and memory (cpu always has thresholds; 'pods' thresholds, pod selectors and "
+        "one to three node pools per configuration, processed by one real Balance call per round; selectors are MatchLabels over the "
+        "labels a / b (none = no nodeSelector, every node; the empty selector; a; b; a+b): overlapping, nested, identical and disjoint "
+        "pools, nodes selected by no pool; node labels do not change during a plugin life; NumberOfNodes is one setting for all pools",
+        "which pool makes an Evict call is not observable: the calls of a round are attributed to pools in order (a call belongs to the "
+        "first pool, not before the pool of the previous call, under which every clause holds); the clauses are evaluated against the "
+        "pool's table over ALL measured nodes its selector matches (for absolute thresholds every clause is monotone in the set of "
+        "member nodes, so this accepts whatever subset of already handled nodes an implementation leaves out of a later pool)",
+        "a pool with deviation thresholds shares no node with an earlier pool (its average is then over exactly the nodes it selects, "
+        "whatever earlier pools did); overlapping pools use absolute thresholds",
+        "over one round the ESTIMATE of a node is the node's, not the pool's: measured usage minus everything successfully evicted from it "
+        "in this round by whichever pool (the NodeMetric does not change within a round; an evicted pod stays listed on its node until "
+        "the next round and the evictor's filter does not let it through again); the headroom of a pool's underused nodes is charged "
+        "with the pool's own evictions only (nothing is demanded across pools); the anomaly streak is per pool and node (above the high "
+        "threshold of the pool that evicts, for the number of rounds that pool asks for)",
+        "resources cpu and memory (cpu always has thresholds; 'pods' thresholds, pod selectors and "
         "namespace filters are not generated); low/high (and prod low/high) thresholds are configured for the same resources and validate",
         "capacities 1000 / 2000 (milli-CPU, bytes); absolute percentages are multiples of 5 whose float conversion is exact; deviation "
         "percentages are x.03-like values so that no threshold quantity lies within 0.005 of an integer (the code's float arithmetic then "
@@ -110,5 +249,7 @@ CONF = {
         "anomaly timeouts and the detector cache expiry are one hour away (no wall-clock dependence)",
         "estimates are decremented only by evictions the evictor reported as successful and by the pod's reported usage "
         "(a pod without a pod metric contributes nothing to the measured usage)",
+        "the node objects of every segment carry names of their own (script name + segment number; the trace keeps the script names), so "
+        "no anomaly detector survives from one segment into the next wherever the plugin keeps its detectors",
     ],
 }
